@@ -201,3 +201,36 @@ package main
 //@   calls Volume.Mtime#1: set smt = time.Time.UnixNano($r0)
 //@   loop 1: invariant age >= arvados.Duration.Duration(old(cluster.Collections.BlobSigningTTL)) && trashRequest == old(trashRequest) && cluster == old(cluster)
 //@   calls Volume.Trash#1: requires age >= arvados.Duration.Duration(old(cluster.Collections.BlobSigningTTL)) && mok && smt == trashRequest.BlockMtime && $0 == trashRequest.Locator && cluster.Collections.BlobTrash
+
+// ------------------------------------------------ C02: all-or-nothing writes
+// WriteBlock's filesystem protocol.  The block path is touched by exactly one
+// call, Rename(temp, bpath), which is reached only after the whole stream was
+// copied (io.Copy returned nil), the temp file was closed and its timestamps
+// set without error.  Every Remove names the temp file, never the block path.
+// The temp name starts with "tmp" and therefore can never be listed by IndexTo
+// (lemma tmpNamesNeverMatch).  No other effectful call is permitted.
+//@ func UnixVolume.WriteBlock property C02 safety -bounds
+//@   only calls: UnixVolume.IsFull UnixVolume.blockDir UnixVolume.blockPath os.MkdirAll osWithStats.TempFile UnixVolume.lock UnixVolume.unlock io.Copy os.File.Close os.Chtimes osWithStats.Rename osWithStats.Remove ioStats.TickOutBytes statsTicker.TickOps statsTicker.Tick
+//@   ghost copied bool = false
+//@   ghost closed bool = false
+//@   ghost stamped bool = false
+//@   ghost renamed bool = false
+//@   calls osWithStats.TempFile#1: requires $1 == "tmp" + loc
+//@   calls io.Copy#1: requires $0 == iface(tmpfile) && $1 == rdr
+//@   calls io.Copy#1: set copied = ($r1 == nil)
+//@   calls os.File.Close#2: requires $recv == tmpfile
+//@   calls os.File.Close#2: set closed = ($r == nil)
+//@   calls os.Chtimes#1: requires copied && closed && $0 == os.File.Name(tmpfile)
+//@   calls os.Chtimes#1: set stamped = ($r == nil)
+//@   calls osWithStats.Rename#1: requires copied && closed && stamped && $0 == os.File.Name(tmpfile) && $1 == bpath
+//@   calls osWithStats.Rename#1: set renamed = ($r == nil)
+//@   calls osWithStats.Remove#*: requires $0 == os.File.Name(tmpfile)
+//@   ensures result == nil ==> renamed
+
+//@ lemma tmpNamesNeverMatch property C02: forall s string :: strings.HasPrefix(s, "tmp") ==> !matches(s, `^[0-9a-f]{32}$`)
+//@ lemma trashNamesNeverMatch property C02: forall s, d string :: !matches(s + ".trash." + d, `^[0-9a-f]{32}$`)
+
+// IndexTo lists a directory entry only if its name is a block name (32 hex
+// digits) with the requested prefix, with the size and mtime of that entry.
+//@ func UnixVolume.IndexTo property C02,C06 safety -bounds
+//@   calls fmt.Fprint#1: requires matches(name, `^[0-9a-f]{32}$`) && strings.HasPrefix(name, prefix)
